@@ -23,9 +23,23 @@ def _tag(line, out):
 
 
 def run(ctx):
+    ctx.extra["level_note"] = (
+        "proof: Append (content with and without aliasing, nil-iff, write log, frame, arguments unchanged, chains of Appends, "
+        "heap invariant for every API-built heap incl. WrappedErrors elements), Count, WrappedErrors, Message/%s of single "
+        "errors and aggregates, the Caused-by structure of %v/%+v, and the recorded stack as an abstract token (captured by "
+        "the creating function, never changed afterwards, kept by copies, listed along Append results); wrap_nil / "
+        "wrapTyped_nil / wrap_idempotent / error_or_nil / capture_records_creator / copy_keeps_stack / caused_by_structure "
+        "are unfoldings of the transcription (they carry the transcription, which the correspondence run ties to the code). "
+        "Reading (Appendix B): with a nil err the first non-nil *Error argument is the accumulator and grows — "
+        "append_args_unchanged covers the arguments after it (restOf), NOT `a` in Append(nil, a, …); a one-line candidate fix "
+        "was sent to the coordinator. Implementation-only: frames below the creating function, file:line text, errors.Is/As, "
+        "Unwrap() []error, Recovery, slog. Not covered by the Append theorems: heaps after CloneWithPrefixMessage of an "
+        "aggregate (shared tails; correspondence only).")
     ctx.modelled += [
-        "stack capture is modelled by one bit per node (stack != nil); stack text, fmt verbs, errors.Is/As, Recovery and the "
-        "slog glue are checked on the implementation only (oracle area `fmt`)",
+        "a recorded stack is modelled as a token (creating function + serial of the capture) beside the heap; on every "
+        "`render` line the harness replaces the frame blocks of the real %v and %+v by the token it derives from the frames "
+        "and compares %s, %q (printable ASCII messages) and %v/%+v with the model; frames below the creator, errors.Is/As, "
+        "Recovery and the slog glue are checked on the implementation only (oracle area `fmt`)",
         "pointer identity of foreign errors is modelled by a creation counter",
     ]
     ctx.assumptions += [
